@@ -28,6 +28,7 @@ def check(chk, thorough=False):
     chk.run('C20.d', 'R-ORDER', 'a transfer is queued only when the received indices equal [0,end]; data is concatenated in index order; repeats are ignored; keyed by (channel, transfer number)', lambda ob: c20d(tree, ob), floor=5)
     chk.run('C20.f', 'R-FLOW', 'a queued bundle is measured at its end and sent from its start; received items get local ids; the channel key names every field of the channel once', lambda ob: c20f(tree, ob), floor=4)
     chk.run('C20.g', 'R-PAIR', 'a received bundle is queued and then announced under one id, taken from a receive counter that only increments (never reused while an earlier bundle may still be queued)', lambda ob: c13f(tree, ob, BAGENT), floor=3)
+    chk.run('C20.h', 'R-FLOW', 'the send entry queues a file over exactly the octets passed in (byte-array conversion only)', lambda ob: __import__('sa.props.common', fromlist=['entry_fidelity']).entry_fidelity(tree, ob, 'btpu/agent.py', 'Agent.send_bundle_data'), floor=1)
     chk.run('C20.e', 'R-TRUTH', 'the end index is tested with "is not None": zero is a legitimate end index', lambda ob: c20e(tree, ob), floor=1)
 
 
